@@ -22,6 +22,30 @@ Theorem same_tenant_match : ∀ mp f t, mp_ok mp = true →
 Proof. exact same_tenant_match. Qed.
 Print Assumptions same_tenant_match.
 
+From Wasp Require Import Model.DState Model.IdPool Model.Node Proofs.NodeFacts.
+(** At delivery: a subscription stored under mp2/f is selected for a message routed under mp1/t
+    (live publish, retained replay or will - all are routed under the publisher's mount point)
+    only if mp1 = mp2 and f matches t; and the topic written to the client is the publisher's. *)
+Theorem tenant_isolation : ∀ d mp1 t mp2 f s, mp_ok mp1 = true → mp_ok mp2 = true →
+  s ∈ sub_by_pattern d (prefix_mp mp1 t) →
+  (∀ key l, (key, l) ∈ d_subs d → s ∈ l → key = prefix_mp mp2 f) →
+  mp1 = mp2 ∧ mmatch (levels f) (levels t) = true.
+Proof. exact delivery_same_tenant. Qed.
+Print Assumptions tenant_isolation.
+
+Example c17_delivery :
+  let run := fold_left (λ st o, let r := step [] st.1 o in (r.1, (st.2 ++ [r.2])%list)) in
+  let ops := [EConnect 0%nat "a" "dev" "ta" "" 60 None 10; ESubscribe "a" 1 [("#", 0); ("+/#", 0)] 20;
+              EConnect 0%nat "b" "dev" "tb" "" 60 (Some (Publish "will" "w" 0 false)) 30; ESubscribe "b" 1 [("#", 0)] 40;
+              EPublish "b" (Publish "/lead" "x" 0 true) false 0 50; EPing "a" 60; EEof "b" 70;
+              EConnect 0%nat "c" "dev2" "ta" "" 60 None 80; ESubscribe "c" 2 [("#", 0)] 90] in
+  let o := (run ops (cnew 1%nat, [])).2 in
+  nth 4%nat o [] = [Appended 0%nat "tb//lead" "x" 0 false; Deadline "b" 120000; Out "b" (OPublish "/lead" "x" 0 false false 0)]
+  ∧ nth 5%nat o [] = [Out "a" OPingResp; Deadline "a" 120000]
+  ∧ nth 6%nat o [] = [Closed "b"]
+  ∧ nth 8%nat o [] = [Out "c" (OSubAck 2 [0]); Deadline "c" 120000].
+Proof. vm_compute. done. Qed.
+
 Example c17_examples :
   mp_ok "tenantA" = true ∧ mp_ok "a/b" = false ∧ mp_ok "+" = false
   ∧ mmatch (levels (prefix_mp "ta" "#")) (levels (prefix_mp "tb" "x")) = false
